@@ -897,6 +897,10 @@ func (c *c15cfg) verify(w *W, cs any) bool {
 }
 
 func c15Worker(w *W) {
+	if w.Spec.Kind == "defs" {
+		c15defsWorker(w)
+		return
+	}
 	c15register()
 	c15schema()
 	c01init()
@@ -1097,6 +1101,12 @@ func init() {
 			for i := 0; i < int(d.Pick(4, 32)); i++ {
 				s := d.NewSpec("mutated", fmt.Sprintf("mut-%d", i), 50+i, 12)
 				s.N = d.Pick(1500, 3000)
+				specs = append(specs, s)
+			}
+			// element shapes / plugin definitions / global properties that the built-in plugins do not exercise (c15defs.go)
+			for i := 0; i < int(d.Pick(2, 8)); i++ {
+				s := d.NewSpec("defs", fmt.Sprintf("defs-%d", i), 100+i, 12)
+				s.N = d.Pick(3000, 20000)
 				specs = append(specs, s)
 			}
 			d.RunWorkers(specs, 16)
